@@ -116,7 +116,7 @@ def c08(ctx, replay):
 # ---------------------------------------------------------------------------------------------
 # Concurrent core: WSConn model (M) + seeded concurrent executions validated by TraceConn/TraceWire (C)
 
-from core import trace_validate, absorb_rejections, repo_tests_traced
+from core import trace_validate, absorb_rejections, repo_tests_traced, deadline_validate
 
 SIG_C05 = {"read-step-without-read-lock", "lock-acquired-while-held", "lock-acquired-after-connection-closed", "forcelock-acquired-while-held",
            "frame-step-without-frame-lock", "frame-emitted-without-frame-lock", "data-frame-without-message-lock",
@@ -687,6 +687,9 @@ def c18(ctx, replay):
         if not caught[d]:
             raise Infra("model regression: WSDeadline deviation %s is no longer caught" % d)
     ctx.extra["model_catches_deviation"] = caught
+    # the same specification bound to the code the other way round: concurrent executions of a real adapter (reader, writer, a
+    # goroutine setting deadlines, the runtime's timer callbacks) replayed through WSDeadline's own actions
+    deadline_validate(ctx, 300 if ctx.quick() else 4000)
     rows = ctx.path("nc.ndjson")
     ctx.tlc("WSNetConnRows", "WSNetConn.cfg", env={"OUT": rows, "N": 3 if ctx.quick() else 4}, workers=4, name="netconn-behaviours", timeout=1800)
     args = ["-rows", rows, "-seed", ctx.seed]
